@@ -134,7 +134,7 @@ def check(out, sub, sa, case, g, rng, tag, fixed_pts=()):
 def run(case):
     out = Outcome()
     sub = "history"
-    g = drive.driver_function(case["dim"], case["fseed"])
+    g = drive.fit_to_box(drive.driver_function(case["dim"], case["fseed"]), case["a"], case["b"])
     f = drive.vector_function([g])
     sa, op = drive.build_es(case, f)
     rng = np.random.default_rng(case["fseed"] + 1)
@@ -189,7 +189,7 @@ def selftest():
     o = run(case)
     assert not o.violations, o.violations
     # the oracle must reject a corrupted tiling
-    g = drive.driver_function(2, 3)
+    g = drive.fit_to_box(drive.driver_function(2, 3), case["a"], case["b"])
     sa, op = drive.build_es(case, drive.vector_function([g]))
     seen = []
 
